@@ -34,7 +34,8 @@ type raceIn struct {
 type raceOut struct {
 	// [thread, req, k, i, e, lo, hi]; k = -1 when no certificate came back; e: 0 nil, 1 ErrNoCertsStored, 2 other
 	Calls [][7]int `json:"calls"`
-	// [req, i]: the certificate presented in a real handshake against the final set (-1: handshake failed)
+	// [req, i]: the certificate presented in a real handshake against the final set (-1: handshake failed, -2:
+	// what was presented - leaf and the certificates after it - is no certificate of the final set)
 	Handshakes [][2]int `json:"handshakes"`
 }
 
@@ -56,6 +57,15 @@ func sniOK(s string) bool {
 }
 
 func realHandshake(cfg *tls.Config, serverName string) ([]byte, error) {
+	ders, err := realHandshakeChain(cfg, serverName)
+	if err != nil {
+		return nil, err
+	}
+	return ders[0], nil
+}
+
+// realHandshakeChain returns everything the server presented: the leaf and what follows it.
+func realHandshakeChain(cfg *tls.Config, serverName string) ([][]byte, error) {
 	cc, sc := net.Pipe()
 	defer cc.Close()
 	defer sc.Close()
@@ -75,7 +85,11 @@ func realHandshake(cfg *tls.Config, serverName string) ([]byte, error) {
 	if len(st.PeerCertificates) == 0 {
 		return nil, fmt.Errorf("no peer certificate")
 	}
-	return st.PeerCertificates[0].Raw, nil
+	var ders [][]byte
+	for _, p := range st.PeerCertificates {
+		ders = append(ders, p.Raw)
+	}
+	return ders, nil
 }
 
 func runRace(raw json.RawMessage) (interface{}, error) {
@@ -186,16 +200,36 @@ func runRace(raw json.RawMessage) (interface{}, error) {
 	for _, rs := range recs {
 		out.Calls = append(out.Calls, rs...)
 	}
+	// the final set is in force for certain now: one more call per request, window [last, last]
+	for r := range in.Reqs {
+		c, err := cfg.GetCertificate(&tls.ClientHelloInfo{ServerName: in.Reqs[r]})
+		rec := [7]int{in.Threads, r, -1, -1, 0, last, last}
+		if c != nil {
+			if id, ok := ident[c]; ok {
+				rec[2], rec[3] = id.k, id.i
+			} else {
+				rec[2], rec[3] = -2, -2
+			}
+		}
+		switch err {
+		case nil:
+		case cert.ErrNoCertsStored:
+			rec[4] = 1
+		default:
+			rec[4] = 2
+		}
+		out.Calls = append(out.Calls, rec)
+	}
 	for r, name := range in.Reqs {
 		if !sniOK(name) {
 			continue
 		}
-		der, err := realHandshake(cfg, name)
+		ders, err := realHandshakeChain(cfg, name)
 		i := -1
 		if err == nil {
 			i = -2
 			for j := range sets[last] {
-				if string(sets[last][j].Certificate[0]) == string(der) {
+				if sameChain(sets[last][j].Certificate, ders) {
 					i = j
 					break
 				}
@@ -218,15 +252,49 @@ func init() {
 					{},
 					{{CN: "a.example.com", SANs: []string{"Example.COM"}}},
 				}},
+			// the leaves stay, what follows them changes (intermediate added, exchanged, removed); the last set is
+			// what a handshake must present, certificates after the leaf included
+			raceIn{Strict: false, Threads: 3, Per: 30, Reqs: []string{"www.example.com", "zzz.test", ""},
+				Sets: [][]selCert{
+					{{CN: "www.example.com"}},
+					{{CN: "www.example.com", Chain: 1}},
+					{{CN: "www.example.com", Chain: 2}},
+					{{CN: "www.example.com"}, {CN: "b.example.com", Chain: 1}},
+					{{CN: "www.example.com", Chain: 3}, {CN: "b.example.com", Chain: 1}},
+				}},
 		},
 		Gen: func(r *hx.Rand, i int) interface{} {
 			in := raceIn{Strict: r.Chance(1, 2), Threads: r.Range(2, 6), Per: r.Range(20, 60)}
 			for n := r.Range(2, 6); n > 0; n-- {
 				var s []selCert
-				for m := r.Intn(nKeys + 1); m > 0; m-- {
-					c := genSelCert(r)
-					c.Bad = false
-					s = append(s, c)
+				prev := []selCert(nil)
+				if len(in.Sets) > 0 {
+					prev = in.Sets[len(in.Sets)-1]
+				}
+				switch x := r.Intn(6); {
+				case x < 2 && len(prev) > 0:
+					// the same certificates published again with something other than the leaves changed: the
+					// certificates that follow the leaf (an intermediate added, removed, exchanged)
+					s = append(s, prev...)
+					for changed := false; !changed; {
+						for j := range s {
+							if r.Chance(1, 2) {
+								v := (s[j].Chain + r.Range(1, nChains)) % (nChains + 1)
+								changed = changed || v != s[j].Chain
+								s[j].Chain = v
+							}
+						}
+					}
+				case x == 2 && len(prev) > 1:
+					// the same names in another order (other default; other keys, so other leaves)
+					k := r.Range(1, len(prev)-1)
+					s = append(append(s, prev[k:]...), prev[:k]...)
+				default:
+					for m := r.Intn(nKeys + 1); m > 0; m-- {
+						c := genSelCert(r)
+						c.Bad = false
+						s = append(s, c)
+					}
 				}
 				in.Sets = append(in.Sets, s)
 			}
